@@ -64,6 +64,7 @@ type FuncContract struct {
 	PanicsUnl *Expr  // extern: panics unless this holds
 	Task      string // closure run by `go`: expression naming the WaitGroup it joins ("" if none)
 	IsTask    bool
+	Recoverer bool // a deferred closure that calls recover() and thereby stops a panic
 	Recovers  bool // declares: installs a recovering defer before any panicking instruction (checked structurally)
 	Hints     map[string][]*Clause // "call:<pattern>" -> lemma clauses asserted+assumed before that call
 	File      string
@@ -71,6 +72,7 @@ type FuncContract struct {
 	Trusted   string // reason, if the block is assumed rather than verified
 	MayPanic  bool   // extern: may panic (arbitrary user code)
 	Returns   *Expr    // pure closure: the expression it returns (checked as ensures result == e)
+	LoopWrites []*Expr  // pre-existing maps/arrays that loops of this function may write (excluded from row preservation)
 	Entry     []string // entry assumptions justified by meta-arguments (e.g. nolocks)
 }
 
@@ -341,6 +343,16 @@ func (cs *Contracts) LoadFile(path, pkgPath string) error {
 			cur.MayPanic = true
 		case "recovers":
 			cur.Recovers = true
+		case "recoverer":
+			cur.Recoverer = true
+		case "loopwrites":
+			for _, it := range splitTop(rest) {
+				e, err := ParseExpr(strings.TrimSpace(it))
+				if err != nil {
+					return fmt.Errorf("%s:%d: %v", path, ln, err)
+				}
+				cur.LoopWrites = append(cur.LoopWrites, e)
+			}
 		case "entry":
 			cur.Entry = append(cur.Entry, strings.Fields(rest)...)
 		case "trusted":
